@@ -144,6 +144,7 @@ class NetObserver:
         # ordered pair -> list of send times (ns) of AntiEntropyRequest messages that have arrived
         self.ae_req_arrived: dict = defaultdict(list)
         self.read_forwarded = 0
+        self.commit_left_key_dirty = 0
 
     def on_event(self, ev, mon=None) -> None:
         if isinstance(ev, ProcessContinuation):
@@ -190,6 +191,8 @@ class NetObserver:
                 self.max_arrived[k3] = idx
         elif et in ("WriteAck", "CommitNotify"):
             self.cleans[(md.get("destination"), md.get("key"))].append((self.tape.stamp(), et, md.get("seq")))
+            if et == "CommitNotify" and md.get("key") in getattr(ev.target, "dirty_keys", ()):
+                self.commit_left_key_dirty += 1  # an older version's commit did not clean a key with a newer uncommitted write
         elif et == "AntiEntropyRequest":
             self.ae_req_arrived[link].append(t_sent)
 
